@@ -4,8 +4,9 @@
 EXTENDS MCBase
 Pow2(k) == LET RECURSIVE P(_) P(i) == IF i = 0 THEN 1 ELSE 2 * P(i - 1) IN P(k)
 R8Vals == (0..40) \cup UNION { {Pow2(k) - 9, Pow2(k) - 8, Pow2(k) - 7, Pow2(k) - 1, Pow2(k), Pow2(k) + 1, Pow2(k) + 7, Pow2(k) + 8} : k \in 4..29 }
-Round8Params == { [n |-> n] : n \in R8Vals }
-Round8Case(p) == [mem |-> <<>>, al |-> 0, calls |-> <<[op |-> "round8", n |-> U32Bytes(p.n)]>>, desc |-> [area |-> "round8", n |-> p.n]]
+Round8Params == { [n |-> n] : n \in R8Vals \cup {-1} }          \* -1: the rendering of the error values instead
+Round8Case(p) == IF p.n = -1 THEN [mem |-> <<>>, al |-> 0, calls |-> <<[op |-> "err_texts"]>>, desc |-> [area |-> "round8", n |-> p.n]] ELSE
+                 [mem |-> <<>>, al |-> 0, calls |-> <<[op |-> "round8", n |-> U32Bytes(p.n)]>>, desc |-> [area |-> "round8", n |-> p.n]]
 \* the law itself, on the specification operator, for the sampled values
 ASSUME \A n \in R8Vals : RoundUp8(n) % 8 = 0 /\ RoundUp8(n) >= n /\ RoundUp8(n) < n + 8
 =============================================================================
